@@ -436,6 +436,11 @@ func (w *Writer) AddMesh(model PolyformModel) (_ int, err error) {
 		return -1, fmt.Errorf("%w: nil mesh in model %q", ErrInvalidInput, model.Name)
 	}
 
+	// glTF has no drawing mode for quads
+	if model.Mesh.Topology() == modeling.QuadTopology {
+		return -1, fmt.Errorf("%w: model %q has quad topology, which glTF can not represent", ErrInvalidInput, model.Name)
+	}
+
 	// Check for empty mesh
 	if model.Mesh.PrimitiveCount() == 0 {
 		return -1, nil // return -1 to signal that mesh was not added, but do not error out
@@ -522,8 +527,18 @@ func (w *Writer) AddMesh(model PolyformModel) (_ int, err error) {
 	}
 
 	var mode *PrimitiveMode = nil
-	if model.Mesh.Topology() == modeling.PointTopology {
+	switch model.Mesh.Topology() {
+	case modeling.PointTopology:
 		p := PrimitiveMode_POINTS
+		mode = &p
+	case modeling.LineTopology:
+		p := PrimitiveMode_LINES
+		mode = &p
+	case modeling.LineStripTopology:
+		p := PrimitiveMode_LINE_STRIP
+		mode = &p
+	case modeling.LineLoopTopology:
+		p := PrimitiveMode_LINE_LOOP
 		mode = &p
 	}
 
